@@ -47,4 +47,132 @@ Fixpoint no_include (x : stmt) : bool :=
   end.
 
 
+
+
 Definition program_decls (root : list stmt) : list decl := flat_map (stmt_decls false) root.
+
+(** ================= multi-file: the VISIT of a workspace, stated on the AST alone =================
+    [sv] follows the statements in the order index.rs visits them: an `include` enters the target file the first time it
+    is met (indexed-once guard d15068e), [g] is the file being read, [dset] says whether the statement is lexically inside a
+    defset OF THE SAME FILE (7840bc6 / 28899f7: a def is a member of a defset's outline only then), [v_known] are the names
+    of the classes declared so far in visit order (what `find_class` can resolve).  A defset whose type names an undeclared
+    class is skipped with its whole body (the `?` of Defset::index); [r_skipped] records that this happened. *)
+Definition fdecl : Type := (N * decl)%type.           (* file, declaration *)
+
+Definition op_fdecl (o : op) : list fdecl :=
+  match o with
+  | OpAddRecord n RKClass loc true _ => [(fr_file loc, (DClass, n, fr_lo loc, fr_hi loc))]
+  | OpAddRecord n RKDef loc true _ => [(fr_file loc, (DDef, n, fr_lo loc, fr_hi loc))]
+  | OpAddDefset n _ loc _ => [(fr_file loc, (DDefset, n, fr_lo loc, fr_hi loc))]
+  | OpAddMulticlass n loc _ => [(fr_file loc, (DMulticlass, n, fr_lo loc, fr_hi loc))]
+  | _ => []
+  end.
+Definition ops_fdecls (ops : list op) : list fdecl := flat_map op_fdecl ops.
+(** the declarations registered for one file, in indexing order *)
+Definition decls_of_file (f : N) (l : list fdecl) : list decl :=
+  map snd (filter (fun x => fst x =? f) l).
+
+Fixpoint ty_ok (known : list SymbolMap.name) (t : ty) : bool :=
+  match t with
+  | TyList e => ty_ok known e
+  | TyClass i => existsb (list_eqb (i_name i)) known
+  | _ => true
+  end.
+
+Record vstate := mkV { v_indexed : list N; v_known : list SymbolMap.name; v_skipped : bool }.
+
+Definition sdecl (g : N) (k : dkind) (i : ident) : fdecl := (g, (k, i_name i, r_lo (i_rng i), r_hi (i_rng i))).
+
+Section Visit.
+  Variable files : list (list stmt).
+
+  Fixpoint sv (fuel : nat) (g : N) (dset : bool) (x : stmt) (v : vstate) : option (list fdecl * vstate) :=
+    match fuel with
+    | O => None
+    | S n =>
+      let many := fix many (g : N) (d : bool) (b : list stmt) (v : vstate) : option (list fdecl * vstate) :=
+        match b with
+        | [] => Some ([], v)
+        | y :: r => match sv n g d y v with
+                    | None => None
+                    | Some (e1, v1) => match many g d r v1 with
+                                       | None => None
+                                       | Some (e2, v2) => Some (e1 ++ e2, v2)
+                                       end
+                    end
+        end in
+      match x with
+      | SInclude _ None => Some ([], v)
+      | SInclude _ (Some f) =>
+          if existsb (N.eqb f) (v_indexed v) then Some ([], v)
+          else let v1 := mkV (f :: v_indexed v) (v_known v) (v_skipped v) in
+               match nth_error files (N.to_nat f) with
+               | None => Some ([], v1)
+               | Some body => many f false body v1
+               end
+      | SClass i _ _ _ => Some ([sdecl g DClass i], mkV (v_indexed v) (i_name i :: v_known v) (v_skipped v))
+      | SDef (Some nm) _ _ _ =>
+          match value_first_ident nm with
+          | Some i => Some (if dset then [] else [sdecl g DDef i], v)
+          | None => Some ([], v)
+          end
+      | SDef None _ _ _ => Some ([], v)
+      | SDefset t i b =>
+          if ty_ok (v_known v) t
+          then match many g true b v with
+               | None => None
+               | Some (e, v') => Some (sdecl g DDefset i :: e, v')
+               end
+          else Some ([], mkV (v_indexed v) (v_known v) true)
+      | SMulticlass i _ _ b =>
+          match many g dset b v with
+          | None => None
+          | Some (e, v') => Some (sdecl g DMulticlass i :: e, v')
+          end
+      | SForeach _ _ b | SLet _ b => many g dset b v
+      | SIf _ th el =>
+          match many g dset th v with
+          | None => None
+          | Some (e1, v1) =>
+              match el with
+              | None => Some (e1, v1)
+              | Some e => match many g dset e v1 with
+                          | None => None
+                          | Some (e2, v2) => Some (e1 ++ e2, v2)
+                          end
+              end
+          end
+      | SAssert _ _ | SDefm _ _ _ | SDefvar _ _ | SDump _ => Some ([], v)
+      end
+    end.
+
+  Fixpoint sv_list (fuel : nat) (g : N) (d : bool) (b : list stmt) (v : vstate) : option (list fdecl * vstate) :=
+    match b with
+    | [] => Some ([], v)
+    | y :: r => match sv fuel g d y v with
+                | None => None
+                | Some (e1, v1) => match sv_list fuel g d r v1 with
+                                   | None => None
+                                   | Some (e2, v2) => Some (e1 ++ e2, v2)
+                                   end
+                end
+    end.
+End Visit.
+
+Definition v0 : vstate := mkV [0] [] false.
+
+(** the visit of a workspace (root = file 0) *)
+Definition visit_ws (w : workspace) : option (list fdecl * vstate) :=
+  match ws_files w with
+  | [] => Some ([], v0)
+  | root :: _ => sv_list (ws_files w) (ws_fuel w) 0 false root v0
+  end.
+
+(** the decidable well-formedness of the declarations of a workspace: the visit completes and no defset was skipped,
+    i.e. every defset's type names only classes declared earlier in visit order *)
+Definition decls_wf (w : workspace) : bool :=
+  match visit_ws w with Some (_, v) => negb (v_skipped v) | None => false end.
+
+(** what file [f] declares: its statements in source preorder *)
+Definition file_decls (files : list (list stmt)) (f : N) : list decl :=
+  match nth_error files (N.to_nat f) with Some body => program_decls body | None => [] end.
